@@ -4,7 +4,7 @@ ENGINES = [
     {
         "name": "symx",
         "path": "/verif/symx",
-        "serves_properties": ["C01", "C03", "C04", "C06", "C07", "C08", "C12", "C13", "C16", "C17", "C18"],
+        "serves_properties": ["C01", "C03", "C04", "C05", "C06", "C07", "C08", "C12", "C13", "C16", "C17", "C18"],
         "kind_free_text": "own symbolic executor: geoh5py's real functions run under CPython with the module-global "
         "`np` (and, for file paths, `h5py`) rebound to z3-backed models; re-execution DFS forks on symbolic "
         "branches; obligations are z3 validity queries; counterexamples are replayed on real numpy/h5py",
@@ -191,6 +191,26 @@ CLAIMED["C01"] = _symx(
 )
 CLAIMED["C01"]["design_ref"] = "DESIGN.md section 12.11"
 
+CLAIMED["C05"] = _symx(
+    "C05",
+    "bounded symbolic execution of the real removal code (Workspace.remove_entity / remove_recursively, parent.remove_children, "
+    "property-group clean-up, H5Writer.remove_entity / remove_child) on a stored tree with symbolic geometry and values; the "
+    "removed entity, the entry point, the delete permission and a follow-up operation are symbolic choices (one path each); z3 "
+    "validity of 'survivors keep their state' term by term; removed identifiers are looked for in the live tree, the lookups, "
+    "the property groups, the listings, the file's flat containers and the tree a fresh Workspace reads; counterexamples "
+    "replayed on real numpy/h5py",
+    "bounded symbolic model checking, partial: on a tree {group {object with four data sets in two overlapping property groups, "
+    "nested group {curve with cell data}}, object with data} every combination of removed entity (8) x entry point (workspace, "
+    "parent) x delete permission (on, off) x follow-up (none, copy a survivor, remove another entity, add data, re-open then copy) "
+    "is explored: the entity and its descendants are gone from the tree, lookups by identifier and name, listings (references "
+    "dropped, collector run) and the file's containers; no property group lists removed data; survivors (symbolic vertices and "
+    "values) are unchanged live and re-read; follow-ups succeed; a workspace removal with the permission off is refused and "
+    "changes nothing. Concatenated holes (C04), other trees and longer histories are outside.",
+    _SYMX_NOTE + "; A-H5: symbolic payloads are kept beside the real HDF5 file by a proxy and handed back unchanged; the tree shape "
+    "is concrete",
+)
+CLAIMED["C05"]["design_ref"] = "DESIGN.md section 12.12"
+
 _XH_NOTE = (
     "trusted: CrossHair 0.0.110 (symbolic execution of CPython code with z3) and its models of builtins; the harness "
     "functions call the real geoh5py kernels directly (no translation); holds only within the value bounds in the evidence"
@@ -256,8 +276,6 @@ _NOT_BUILT = "check not built yet (planned, see DESIGN.md section 5)"
 NOT_APPLICABLE = {
     "C02": "validity of the HDF5 link graph is produced by the h5py C library under call histories; nothing symbolic "
     "to decide, a fake h5 layer would only restate the stub",
-    "C05": "deletion is pointer surgery on child lists, property-group lists and HDF5 links over discrete object-graph "
-    "shapes; symbolic execution could only enumerate them (index arithmetic of concatenated removal is in C04)",
     "C09": "frame property over all reachable workspace states observed as per-node digests of an HDF5 file; the only "
     "arithmetic frame condition (other holes' concatenated rows) is decided in C04",
     "C10": "immutability is delivered by h5py's read-only handle and the mode string; quantifier is over programs "
